@@ -313,6 +313,42 @@ func litBodyParts() []string {
 	return p
 }
 
+// forLiteralMatrix enumerates prefix x quote form x body part x position (this shard's residue class).
+func forLiteralMatrix(ctx *harness.Ctx, f func(s string) bool) {
+	idx := 0
+	body := litBodyParts()
+	for _, p := range litPrefixes {
+		for _, qf := range litQuotes {
+			for _, e := range append(body, "\\u00e9;x", "\\d+;", "a;b") {
+				for pos := 0; pos < 6; pos++ {
+					idx++
+					if idx%ctx.Of != ctx.Shard {
+						continue
+					}
+					var s string
+					switch pos {
+					case 0:
+						s = p + qf + e + qf
+					case 1:
+						s = p + qf + "a" + e + qf
+					case 2:
+						s = p + qf + e + "a" + qf + " x"
+					case 3:
+						s = p + qf + "a" + e // unclosed, escape at EOF
+					case 4:
+						s = p + qf + e + qf[:1] // partial closer
+					case 5:
+						s = "a." + p + qf + e + qf + ".b"
+					}
+					if !f(s) {
+						return
+					}
+				}
+			}
+		}
+	}
+}
+
 func runLexProps(ctx *harness.Ctx, oracle harness.Oracle) {
 	do := func(t harness.T, leg, src string) bool {
 		cs := &harness.Case{Leg: leg, Input: src}
@@ -351,41 +387,49 @@ func runLexProps(ctx *harness.Ctx, oracle harness.Oracle) {
 		})
 		ctx.Exhaustive(fmt.Sprintf("all sequences of <=%d symbols from ASCII / Unicode whitespace, stray bytes 0xA0 0xC2, an identifier and comments", nws), ctx.ViolationCount() == 0)
 	})
+	// comment shapes: every string of length <=8 (quick) / <=9 (thorough) over the 7 bytes that open, close and fill comments
+	const commentAlphabet = "/*a \n-#"
+	nc := ctx.Pick(8, 9)
+	ctx.Leg("exhaustive-comments", func() {
+		enumStrings(commentAlphabet, nc, ctx.Shard, ctx.Of, func(s string) bool { do(nil, "exhaustive-comments", s); return limit() })
+		ctx.Exhaustive(fmt.Sprintf("all strings of length <=%d over %q", nc, commentAlphabet), ctx.ViolationCount() == 0)
+	})
+	// every Unicode scalar value (and every lone byte >= 0x80) in trivia position: between two tokens, alone, and after a comment
+	ctx.Leg("every-rune-as-trivia", func() {
+		idx := 0
+		for r := rune(0); r <= 0x10FFFF; r++ {
+			if r >= 0xD800 && r <= 0xDFFF {
+				continue
+			}
+			idx++
+			if idx%ctx.Of != ctx.Shard {
+				continue
+			}
+			c := string(r)
+			do(nil, "every-rune-as-trivia", "a"+c+"1")
+			if r >= 0x80 || r < 0x21 {
+				do(nil, "every-rune-as-trivia", c)
+				do(nil, "every-rune-as-trivia", "x /* c */"+c+"-- d\n+ 2")
+			}
+			if !limit() {
+				return
+			}
+		}
+		for b := 0x80; b <= 0xFF; b++ {
+			c := string([]byte{byte(b)})
+			do(nil, "every-rune-as-trivia", "a"+c+"1")
+			do(nil, "every-rune-as-trivia", "a "+c+" 1")
+			do(nil, "every-rune-as-trivia", "a"+c+"\xa0"+c)
+		}
+		ctx.Exhaustive("every Unicode scalar value and every lone byte >= 0x80 between two tokens", ctx.ViolationCount() == 0)
+	})
 	nn := ctx.Pick(5, 6)
 	ctx.Leg("exhaustive-numeric", func() {
 		enumStrings(numAlphabet, nn, ctx.Shard, ctx.Of, func(s string) bool { do(nil, "exhaustive-numeric", s); return limit() })
 		ctx.Exhaustive(fmt.Sprintf("all strings of length <=%d over %q", nn, numAlphabet), ctx.ViolationCount() == 0)
 	})
 	ctx.Leg("literal-matrix", func() {
-		idx := 0
-		for _, p := range litPrefixes {
-			for _, qf := range litQuotes {
-				for _, e := range litBodyParts() {
-					for pos := 0; pos < 6; pos++ {
-						idx++
-						if idx%ctx.Of != ctx.Shard {
-							continue
-						}
-						var s string
-						switch pos {
-						case 0:
-							s = p + qf + e + qf
-						case 1:
-							s = p + qf + "a" + e + qf
-						case 2:
-							s = p + qf + e + "a" + qf + " x"
-						case 3:
-							s = p + qf + "a" + e // unclosed, escape at EOF
-						case 4:
-							s = p + qf + e + qf[:1] // partial closer
-						case 5:
-							s = "a." + p + qf + e + qf + ".b"
-						}
-						do(nil, "literal-matrix", s)
-					}
-				}
-			}
-		}
+		forLiteralMatrix(ctx, func(s string) bool { do(nil, "literal-matrix", s); return limit() })
 		ctx.Exhaustive("literal matrix: 16 prefixes x 5 quote forms x 55 body parts x 6 positions", ctx.ViolationCount() == 0)
 	})
 	parts := litBodyParts()
@@ -417,6 +461,11 @@ func runLexProps(ctx *harness.Ctx, oracle harness.Oracle) {
 		s := mutate.Soup(t, 40)
 		ctx.Sample(map[string]any{"leg": "soup", "input": q(s)})
 		do(t, "soup", s)
+	})
+	ctx.Rapid("many-lines", ctx.Pick(200, 3000), func(t *rapid.T) {
+		s, where := drawManyLines(t)
+		ctx.Class("many-lines:error-" + where)
+		do(t, "many-lines", s)
 	})
 	ctx.Rapid("sentence", ctx.Pick(3000, 40000), func(t *rapid.T) {
 		s, _ := drawSentence(t)
